@@ -28,6 +28,15 @@ typed defaultdict (typing: defaultdict(...) -> local -> constructor argument
 -> field, propagated through call sites) is an implicit insertion; keys drawn
 from the mapping itself or guarded by a membership test are accepted, literal
 / enum-ranging keys are violations, other keys are reported undecided.
+DATA-INPLACE - access-path analysis of every valjean.javert function: no
+in-place modification (sort / fill / put / subscript store / augmented
+assignment / out= / numpy in-place function / replacement of the field) of an
+object whose path from a parameter ends in a data field of a template (bins,
+values, errors, columns - the live arrays of the datasets), through local
+aliases, containers filled with append, callees of the package and receivers
+narrowed by isinstance; this reaches the post-treatments and plot representers
+that are only called through getattr / self.post dispatch. Suppressed when
+every caller in the package passes a template it has just built.
 DET - no evaluate() implementation reaches (call graph, depth 3) a clock,
 random source or process identity.
 Not decided: effects hidden in library calls that are not in the mutator
@@ -58,6 +67,7 @@ def check(ctx):
                                     max_depth=6 if ctx.tier == 'thorough'
                                     else 4)
     ctx.run(purity.check_pure, analyzer)
+    ctx.run(purity.check_data_inplace)
     ctx.run(purity.check_det, depth=5 if ctx.tier == 'thorough' else 3)
 
 
@@ -134,6 +144,97 @@ def variants(program):
         _prepend('TestResultEqual.__bool__',
                  'self.equal = [np.all(eq) for eq in self.equal]'),
         {'PURE'}, note='overwrites a recorded statistic')
+
+    def trim_sorts(tree):
+        # seed C13-r2-1: the post-treatment sorts the live bins in place
+        fun = find_func(tree, 'trim_range')
+        for node in ast.walk(fun):
+            if isinstance(node, ast.Assign) and txt(node.targets[0]) == \
+                    'binw':
+                node.value = parse_expr('np.ediff1d(nbins)')
+                for par in ast.walk(fun):
+                    for fld in ('body', 'orelse'):
+                        blk = getattr(par, fld, None)
+                        if isinstance(blk, list) and node in blk:
+                            blk.insert(blk.index(node), parse_stmts(
+                                'if nbins[0] > nbins[-1]:\n'
+                                '    nbins.sort()')[0])
+                            return True
+        return False
+    add('seed-post-treatment-sorts-live-bins', 'mutant', PREPR, trim_sorts,
+        {'DATA-INPLACE'}, quick=True,
+        note='reached through getattr / self.post dispatch only')
+
+    def trim_sorted_copy(tree):
+        fun = find_func(tree, 'trim_range')
+        return replace_first(
+            fun, lambda n: isinstance(n, ast.Assign) and txt(n) ==
+            'nbins = lbins',
+            lambda n: parse_stmts('nbins = np.sort(lbins)')[0])
+    add('twin-post-treatment-sorts-a-copy', 'twin', PREPR, trim_sorted_copy)
+
+    def rst_merges_in_place(tree):
+        # seed C13-r2-3: live templates of an external test joined in place
+        fun = find_func(tree, 'Rst.format_result')
+        done = replace_first(
+            fun, lambda n: isinstance(n, ast.For) and txt(n.iter) ==
+            'res_repr',
+            lambda n: ast.For(target=n.target, iter=parse_expr(
+                '_merge_tables(res_repr)'), body=n.body, orelse=n.orelse,
+                lineno=n.lineno))
+        tree.body.extend(parse_stmts(
+            'def _merge_tables(templates):\n'
+            '    from .templates import TableTemplate\n'
+            '    merged = []\n'
+            '    for template in templates:\n'
+            '        if (merged and isinstance(template, TableTemplate)\n'
+            '                and isinstance(merged[-1], TableTemplate)\n'
+            '                and merged[-1].headers == template.headers):\n'
+            '            merged[-1].join(template)\n'
+            '        else:\n'
+            '            merged.append(template)\n'
+            '    return merged\n'))
+        return done
+    add('seed-rst-joins-live-tables-in-place', 'mutant',
+        'valjean.javert.rst', rst_merges_in_place, {'DATA-INPLACE'})
+
+    def rst_merges_copies(tree):
+        fun = find_func(tree, 'Rst.format_result')
+        done = replace_first(
+            fun, lambda n: isinstance(n, ast.For) and txt(n.iter) ==
+            'res_repr',
+            lambda n: ast.For(target=n.target, iter=parse_expr(
+                '_merge_tables(res_repr)'), body=n.body, orelse=n.orelse,
+                lineno=n.lineno))
+        tree.body.extend(parse_stmts(
+            'def _merge_tables(templates):\n'
+            '    from .templates import TableTemplate\n'
+            '    merged = []\n'
+            '    for template in templates:\n'
+            '        if (merged and isinstance(template, TableTemplate)\n'
+            '                and isinstance(merged[-1], TableTemplate)\n'
+            '                and merged[-1].headers == template.headers):\n'
+            '            both = merged.pop().copy()\n'
+            '            both.join(template)\n'
+            '            merged.append(both)\n'
+            '        else:\n'
+            '            merged.append(template)\n'
+            '    return merged\n'))
+        return done
+    add('twin-rst-joins-copies-of-tables', 'twin', 'valjean.javert.rst',
+        rst_merges_copies)
+
+    def data_zeroes_masked(tree):
+        # seed C13-r2-2: fingerprinting writes through a view of the array
+        fun = find_func(tree, 'Dataset.data')
+        idx = _body_start(fun)
+        fun.body[idx:idx] = parse_stmts(
+            'if isinstance(self.value, np.ma.MaskedArray):\n'
+            '    raw = np.ma.getdata(self.value)\n'
+            '    raw[np.ma.getmaskarray(self.value)] = 0')
+        return True
+    add('seed-fingerprint-zeroes-masked-entries', 'mutant',
+        'valjean.eponine.dataset', data_zeroes_masked, {'PURE'})
 
     add('plot-representer-pops-classification', 'mutant', PREPR,
         _prepend('repr_testresultstats',
